@@ -183,7 +183,9 @@ def pixel_bytes(kind, n, p, salt, special=True):
     return out, raw
 
 
-LEVELS = {"1.1": ("signal", 8, "C*8"), "1.5": ("processed", 2, "IU2"), "3.1": ("processed", 2, "IU2")}
+# level 1.0 (raw signal data, type code CI*2 = one signed byte each for I and Q; signal data records like level 1.1): the pinned reader
+# refuses the type code ("for now, level 1.1, 1.5, and 3.1 only") -- kept so that a reader that starts to accept it is held to the properties
+LEVELS = {"1.1": ("signal", 8, "C*8"), "1.5": ("processed", 2, "IU2"), "3.1": ("processed", 2, "IU2"), "1.0": ("signal", 2, "CI*2")}
 
 
 def image_filename(pol, scene_id, product_id, scan=None):
@@ -264,10 +266,10 @@ def build_product(level="1.5", images=(("HH", None, 5, 4),), seed=0, leader=None
     kind = kind or lkind  # line-record type (prefix length) and sample type are independent in the format
     if sample is not None:
         type_code = sample
-        bps = {"C*8": 8, "IU2": 2}[sample]
+        bps = {"C*8": 8, "IU2": 2, "CI*2": 2}[sample]
     skind = "signal" if type_code == "C*8" else "processed"  # which sample encoder to use
     if product_id is None:
-        product_id = {"1.1": "WWDR1.1__D", "1.5": "WBDR1.5RUD", "3.1": "FBDR3.1GUA"}[level]
+        product_id = {"1.1": "WWDR1.1__D", "1.5": "WBDR1.5RUD", "3.1": "FBDR3.1GUA", "1.0": "HBQR1.0__A"}[level]
     b = Built()
     b.meta = dict(level=level, scene_id=scene_id, product_id=product_id, seed=seed)
     overrides = dict(overrides or {})
@@ -287,7 +289,7 @@ def build_product(level="1.5", images=(("HH", None, 5, 4),), seed=0, leader=None
     fill(vol, "VOL")
     # leader
     lp = dict(L.SMALL_LEADER)
-    if level == "1.1":
+    if level in ("1.1", "1.0"):
         lp["nmap"] = 0
     lp.update(leader or {})
     led = FileBuilder(L.instance(**lp))
